@@ -178,7 +178,67 @@ def run(ctx):
             ctx.fail("--undo of the anonymized file does not restore the (canonicalised) input", {"line": lines[k] if k < len(lines) else None, "options": opts},
                      got[k] if k < len(got) else None, expl[k] if k < len(expl) else None, label="impl-file")
     ctx.search_stats_file = {"file_roundtrips": len(froms)}
-    ctx.evaluations = 2 * (len(fwd) + len(warm0)) + 2 * len(froms)
+    n_files = file_round_trips(ctx, rng, q)
+    ctx.evaluations = n_files + 2 * (len(fwd) + len(warm0)) + 2 * len(froms)
     ctx.distinct_nontrivial = nt
     ctx.search_stats = {"cold_undo_cases": len(fwd), "warm_cases": len(warm0), "addresses_undone_cold_with_image_ne_original": nt, "file_level_main_roundtrips": len(froms)}
     ctx.samples = [{"case": next(c for c in cold_i if c), "impl": next(r for r in raw_i if r)}, {"case": next(c for c in warm_i if c), "impl": next(r for r in wraw_i if r)}]
+
+
+def file_round_trips(ctx, rng, q):
+    """anonymize a text through the real command line, undo the result in ANOTHER process with the same salt and options: every address token must
+    come back with its original VALUE (notation may differ). Salts incl. the empty string, host-bit counts, preserved lists, IPv6 literals with an
+    IPv4 tail in the listed forms, lines with over a hundred addresses."""
+    import base64
+    import ipaddress
+    import json
+    import vlib
+    from . import linegen
+    n = 0
+    runs = []
+    for salt in (["", "s", "T5"] if q else ["", "s", "T5", "0", " ", "é", "netconan", "_x"]):
+        for hb, nets in ((8, None), (0, ["11.22.0.0/16"]), (16, None)):
+            lines = [l if l.endswith("\n") else l + "\n" for l in linegen.ip_lines(rng, 6, near=False, masks=True)]
+            lines.append("map ::ffff:198.51.100.7 64:ff9b::10.0.0.1 ::ffff:0:192.168.1.1 ::1.2.3.4 end\n")
+            lines.append("prefix-list " + " ".join("%d.%d.%d.%d" % (rng.randrange(1, 224), rng.randrange(256), rng.randrange(256), rng.randrange(1, 255)) for _ in range(rng.choice([90, 110, 140]))) + "\n")
+            lines.append("v6-list " + " ".join(str(ipaddress.IPv6Address(rng.getrandbits(128))) for _ in range(40)) + "\n")
+            # lines of short addresses whose length sits just below common limits: the anonymized line is longer than the original
+            for target in (rng.sample([1000, 1016, 1023, 1024, 2040, 2047, 4090, 4095, 8190], 3)):
+                toks = ["pl"]
+                while len(" ".join(toks)) + 9 < target:
+                    toks.append("%d.%d.%d.%d" % (rng.randrange(1, 10), rng.randrange(10), rng.randrange(10), rng.randrange(1, 10)))
+                body = " ".join(toks)
+                lines.append(body + " " + "x" * max(0, target - len(body) - 2) + "\n")
+            runs.append((salt, hb, nets, lines))
+
+    def cli(opts, content):
+        o = dict(opts, single="r.cfg")
+        out = vlib.run_impl_fresh([["files", "main", json.dumps(o), json.dumps([["r.cfg", base64.b64encode(content.encode()).decode(), {}]])]])[0]
+        try:
+            r = json.loads(out)
+            return None if r["raised"] else r["out"].get("r.cfg")
+        except Exception:
+            return None
+    for salt, hb, nets, lines in runs:
+        text = "".join(lines)
+        common = {"salt": salt, "hostbits": hb, "networks": nets}
+        anon = cli(dict(common, ip=True), text)
+        back = cli(dict(common, undo=True), anon) if anon is not None else None
+        if anon is None or back is None:
+            ctx.fail("command-line anonymize / undo run produced no output", {"salt": salt, "host_bits": hb, "networks": nets}, [anon is None, back is None], label="impl-files")
+            continue
+        for l, b in zip(lines, back.splitlines(True)):
+            def values(line):
+                t6 = linegen.v6_tokens(line)
+                rest = list(line)
+                for i, j, _v, _k in t6:          # an IPv4 tail inside an IPv6 literal belongs to that literal
+                    rest[i:j] = " " * (j - i)
+                return [("6", v) for _, _, v, _ in t6] + [("4", v) for _, _, v in linegen.v4_tokens("".join(rest))]
+            want, got = values(l), values(b)
+            n += len(want)
+            if sorted(want) != sorted(got):
+                miss = [x for x in want if x not in got][:1]
+                ctx.fail("anonymize then undo (same salt %r, host bits %d, separate processes, command line) does not restore %s" % (
+                    salt, hb, ((ipaddress.IPv4Address(miss[0][1]) if miss[0][0] == "4" else ipaddress.IPv6Address(miss[0][1])) if miss else "the addresses of a line")), {"line": l[:300], "salt": salt, "host_bits": hb, "networks": nets}, b[:300], label="impl-files")
+                break
+    return n
